@@ -267,7 +267,8 @@ def h_sched(params, n0, n1, n2, first, a0, a1, a2, a3, r0, r1, r2, r3, g0, g1, g
   nact = nworkers * per
   acts = [concretize(x, range(len(params['actions']))) for x in (a0, a1, a2, a3)[:nact]]
   acts = [ACTIONS.index(params['actions'][i]) for i in acts]
-  rewards = [1, 2, 0, 1][:nact] if params.get('symmetric') else [concretize(x, (0, 1, 2)) for x in (r0, r1, r2, r3)[:nact]]
+  # rewards: distinct fixed values (both orders arise from `first`) unless the shard asks for symbolic ones (ties, all orders)
+  rewards = [concretize(x, (0, 1, 2)) for x in (r0, r1, r2, r3)[:nact]] if params.get('sym_rewards') else [1, 2, 0, 1][:nact]
   if params['groups'] == 'distinct':
     groups = list(range(nworkers))
   elif params['groups'] == 'same':
@@ -360,13 +361,17 @@ def shards(tier, seed):
   add('2w2t:K1:budget3:sweeping', workers=2, per_worker=2, preemptions=1, actions=['done', 'skip'], groups='distinct', algo='sweeping',
       num_examples=3)
   # same-group workers share the pending trial
-  add('2w1t:K1:same_group:sweeping', workers=2, per_worker=1, preemptions=1, actions=['done', 'skip'], groups='symbolic',
+  add('2w1t:K1:same_group:sweeping', workers=2, per_worker=1, preemptions=1, actions=['done', 'skip', 'early_stop'], groups='same',
       algo='sweeping', num_examples=None)
+  add('2w1t:K1:rewards:sweeping', workers=2, per_worker=1, preemptions=1, actions=['done'], groups='distinct', algo='sweeping',
+      num_examples=None, sym_rewards=True)
   add('2w1t:K2:same_group:sweeping', workers=2, per_worker=1, preemptions=2, actions=['done'], groups='same', algo='sweeping',
       num_examples=None, symmetric=True)
   add('2w1t:K1:distinct:evolution', workers=2, per_worker=1, preemptions=1, actions=['done'], groups='distinct', algo='evolution',
       num_examples=None)
   if not quick:
+    add('2w1t:K1:mixed_groups:sweeping', workers=2, per_worker=1, preemptions=1, actions=['done', 'skip'], groups='symbolic',
+        algo='sweeping', num_examples=None, sym_rewards=True)
     add('2w1t:K2:distinct:sweeping', workers=2, per_worker=1, preemptions=2, actions=['done', 'skip'], groups='distinct',
         algo='sweeping', num_examples=None)
     add('2w2t:K2:budget3:sweeping', workers=2, per_worker=2, preemptions=2, actions=['done'], groups='distinct', algo='sweeping',
@@ -381,7 +386,8 @@ def shards(tier, seed):
 META = dict(
     rule='Shard = (worker/trial configuration, window of the first run length); symbolic: run lengths of the preempted '
          'segments (statement granularity), which thread runs first, per-trial action (done/skip/early-stop/end_loop), '
-         'rewards, group assignment.',
+         'rewards (symbolic in the rewards / mixed_groups families, distinct constants elsewhere), group assignment '
+         '(mixed_groups family).',
     bounds=['2 workers x 1-2 trials with K = 1 preemption (quick); K = 2 and 3 workers in thorough', 'run lengths 0..70 statements '
             '(a worker executes ~60 statements per trial)', 'statement granularity inside the transformed functions; calls to '
             'untransformed code are atomic', 'num_examples in {None, 1, 3}; algorithms: Sweeping, regularized evolution'],
